@@ -257,7 +257,7 @@ var c10Fields = core.Mon(c10, "fields", func(w *core.W, c *FieldCase) {
 
 func c10Cfg() *gen.ProgCfg {
 	cfg := fixNums(EvalSyntax())
-	cfg.Idents = []string{"n0", "n1", "s0", "s1", "b0", "z", "m", "tm", "arr", "st", "pst", "nilp", "x0", "x1", "undefinedname", "$v", "$w", "abs"}
+	cfg.Idents = []string{"n0", "n1", "s0", "s1", "b0", "z", "m", "tm", "arr", "st", "pst", "nilp", "nd", "x0", "x1", "undefinedname", "$v", "$w", "abs"}
 	cfg.Kws = []string{"null", "true", "false"}
 	cfg.WSel = 22
 	cfg.WTypeof = 6
